@@ -2,7 +2,7 @@
    Statements only; every proof is [exact Lemmas.<name>]. *)
 From Coq Require Import ZArith List Bool.
 Import ListNotations.
-From GV Require Import Common.Wire C17.Model C17.Lemmas.
+From GV Require Import Common.Wire gen.Gen_findcid C17.Model C17.Lemmas C17.GenLink.
 Open Scope Z_scope.
 
 (* After every sequence of modelled calls of the mutation API (valid and invalid arguments, any hub mode) that does not
@@ -92,3 +92,15 @@ Theorem order_stable_basic : forall s, NoDup (keys (comps s)) ->
      keys (comps (fst (update_id o n s))) = replz o n (keys (comps s))).
 Proof. exact Lemmas.order_stable_basic. Qed.
 Print Assumptions order_stable_basic.
+
+(* ---- tie of the lookup-by-name model to the source by translation: find_component_id is Data.find_component_id
+   REGENERATED from glue/core/data.py on every run (tools/gen/gen_findcid.py) ---- *)
+Theorem find_in_is_generated : forall (cls : list (list Z)) (p : Z -> bool),
+  find_component_id cls p = find_in cls p.
+Proof. exact GenLink.find_in_is_generated. Qed.
+Print Assumptions find_in_is_generated.
+
+(* ... and the source searches the classes in the order main > derived > coordinate > linked *)
+Theorem find_order_is_precedence : find_order = [0; 1; 2; 3]%Z.
+Proof. exact GenLink.find_order_is_precedence. Qed.
+Print Assumptions find_order_is_precedence.
